@@ -366,8 +366,11 @@ func (c *dedicatedSingleClient) SetOnInvalidations(fn func([]RedisMessage)) <-ch
 }
 
 func (c *dedicatedSingleClient) Close() {
-	c.wire.Close()
-	c.release()
+	// once recycled, the wire belongs to the pool or to another caller: leave it alone
+	if atomic.CompareAndSwapUint32(&c.mark, 0, 1) {
+		c.wire.Close()
+		c.conn.Store(c.wire)
+	}
 }
 
 func (c *dedicatedSingleClient) check() error {
